@@ -345,12 +345,16 @@ pub fn run_c05(args: &Args, rep: &mut Report) {
                     }
                     dev.begin_call();
                     dev.set_fault(Some(FaultPlan { k, kinds: EvKind::Write.bit(), code: 0xC05 }));
+                    // (the driver tags the payload by operation id and by the reference model's cursor, which stays 0 here)
+                    let pos_before: u64 = 0;
                     let o = run!(&Op::Write { h: 0, len: *len }, &mut hs);
                     let fired = dev.fired();
                     dev.set_fault(None);
                     let Some(fired) = fired else { return Ok(None) };
-                    // only payload transfers are judged
-                    if !matches!(g.region(fired.off), Region::Data(_)) || o.ek.is_none() {
+                    // only payload transfers are judged: the failed device write carried the bytes handed to write()
+                    // (zero-filling a fresh cluster, say, is part of the allocation and may strand the cluster)
+                    let payload_head: Vec<u8> = (0..(*len as u64).min(8)).map(|i| crate::model::tag_byte(step, pos_before + i)).collect();
+                    if !matches!(g.region(fired.off), Region::Data(_)) || o.ek.is_none() || fired.head.is_empty() || !payload_head.starts_with(&fired.head) {
                         return Ok(None);
                     }
                     dev.begin_call();
